@@ -430,7 +430,7 @@ def r133(W, engs, rep):
         if off:
             msg = ('%s() lets `%s` reach %s, which handles only the sizes {%s} and otherwise stops with "internal error at <compiler source line>"; under the guards that '
                    'dominate this point the type can still be %s%s -> the compiler reports an internal error instead of a located diagnostic or correct code'
-                   % (f, desc_path, ('its own size dispatch' if callee == 'switch' else callee + '()'), acc, ', '.join('%s (%s)' % x for x in off), '' if known else ' (no kind guard constrains it here, in its callers or in add_type)'))
+                   % (f, desc_path, ('its own size dispatch' if callee == 'dispatch' else callee + '()'), acc, ', '.join('%s (%s)' % x for x in off), '' if known else ' (no kind guard constrains it here, in its callers or in add_type)'))
         o = obs.get(key)
         if o is None:
             obs[key] = (not off, msg, '%s:%d' % (un, node.line), {'accepted_sizes': sorted(d['accepted']), 'possible_kinds': sorted(kinds), 'offending': off})
@@ -481,7 +481,7 @@ def r133(W, engs, rep):
                         S2 = S.copy()
                         S2.vs[q[:-6] + '->kind'] = ('in', frozenset(acc))
                 node = [n for n, c, Sx, _ in e.calls if Sx is S][0]
-                judge(dun, df, e, node, 'switch', d, S2, None, q and e.show(q), q)
+                judge(dun, df, e, node, 'dispatch', d, S2, None, q and e.show(q), q)
     for key, (ok, msg, where, facts) in sorted(obs.items()):
         rep.ob('R13.3', key, ok, msg, where=where, facts=facts)
     rep.extra['size_dispatch'] = {'dispatchers': {'%s:%s' % k: {'on': v['show'], 'accepted': sorted(v['accepted'])} for k, v in sorted(disp.items())},
